@@ -3,8 +3,11 @@ package main
 import (
 	"context"
 	"fmt"
+	"os"
 	"sort"
 	"time"
+
+	"github.com/pinealctx/neptune/syncx/pipe/mux"
 
 	"verif/harness/internal/tr"
 )
@@ -76,6 +79,10 @@ func (wd *world) submit2(op string, k int, f, g []int) (*opctx, func() interface
 	wd.nid++
 	o := &opctx{id: wd.nid, k: k, d: wd.nid, f: f, g: g}
 	o.ctx, o.cancel = context.WithCancel(context.Background())
+	if has(g, 9) { // the call is made with a context that has already ended
+		o.cancelled = true
+		o.cancel()
+	}
 	wd.out[o.id] = o
 	wd.evs = append(wd.evs, tr.E{"ev": "sub", "id": o.id, "op": op, "k": k, "d": o.d})
 	wd.mu.Unlock()
@@ -94,6 +101,7 @@ func (wd *world) submit2(op string, k int, f, g []int) (*opctx, func() interface
 			r["e"] = errName(err)
 		case v != nil:
 			r["v"] = toInt(v)
+			wd.retain(r, v)
 		case op != "del":
 			r["v"] = nilVal // (nil, nil) from anything but delete
 		}
@@ -111,7 +119,14 @@ func (wd *world) submit2(op string, k int, f, g []int) (*opctx, func() interface
 }
 
 func (wd *world) flush(w *tr.W) {
+	if wd.cfg.Late && !wd.over {
+		return // rendered when the history is over
+	}
 	wd.mu.Lock()
+	for _, x := range wd.kept {
+		x.e["v"] = toInt(x.v)
+	}
+	wd.kept = nil
 	evs := wd.evs
 	wd.evs = nil
 	wd.mu.Unlock()
@@ -132,12 +147,45 @@ func (wd *world) observe(w *tr.W) {
 	for k := 1; k <= wd.cfg.NK; k++ {
 		cache[k-1] = wd.peekAll(k)
 	}
-	w.Emit(tr.E{"ev": "step", "cache": cache, "store": st, "gated": wd.waiting()})
+	wd.logf(tr.E{"ev": "step", "cache": cache, "store": st, "gated": wd.waiting(), "running": wd.started})
+	wd.flush(w)
+}
+
+// writers: every open trace file, so that a run that cannot go on ends with complete files.
+var writers []*tr.W
+
+// giveUp: something of the code under test keeps running and never parks (or the runtime picture
+// never becomes stable).  That is an observation: logged for the specification to reject; nothing
+// more can be executed in this process.
+func (wd *world) giveUp(w *tr.W, err error) {
+	wd.over = true
+	wd.flush(w)
+	w.Emit(tr.E{"ev": "stuck", "what": "no quiescence: " + err.Error()})
+	for _, x := range writers {
+		x.Close()
+	}
+	fmt.Println("gave up: no quiescence")
+	os.Exit(0)
+}
+
+func (wd *world) start(w *tr.W) {
+	if wd.started {
+		return
+	}
+	wd.started = true
+	wd.grp.Start()
+	wd.logf(tr.E{"ev": "life", "what": "start"})
+}
+
+func (wd *world) stop(w *tr.W) {
+	wd.grp.Stop()
+	wd.stopped = true
+	wd.logf(tr.E{"ev": "life", "what": "stop"})
 }
 
 func (wd *world) settle(w *tr.W) {
 	if err := wd.x.Settle(); err != nil {
-		tr.Fatal("%v", err)
+		wd.giveUp(w, err)
 	}
 	for i := range wd.x.W {
 		wd.x.Take(i + 1)
@@ -182,12 +230,25 @@ func (wd *world) waiting() []int {
 
 func (wd *world) emitReset(w *tr.W) {
 	c := wd.cfg
+	emux, edeep := c.NW, c.Deep // what the getters must say: the option, or the package default
+	if emux == 0 {
+		emux = mux.DefaultMuxSize
+	}
+	if edeep == defaultDeep {
+		edeep = mux.DefaultDeepSize
+	}
 	w.Emit(tr.E{"ev": "reset", "nk": c.NK, "nw": c.NW, "facade": c.Facade, "cap": c.Cap, "deep": c.Deep,
-		"kt": c.KT, "sized": c.Sized, "serial": c.Serial, "src": c.Src})
+		"kt": c.KT, "sized": c.Sized, "serial": c.Serial, "src": c.Src, "ptr": c.Ptr, "late": c.Late,
+		"startat": c.StartAt, "stopat": c.StopAt,
+		"emux": emux, "edeep": edeep, "gmux": wd.grp.MuxSize(), "gdeep": wd.grp.DeepSize()})
 }
 
 // finish: release every gate, observe every key through DoGet, require that everybody returned, stop.
 func (wd *world) finish(w *tr.W) {
+	if !wd.started { // calls queued on a group that was not running yet are applied once it runs
+		wd.start(w)
+		wd.settle(w)
+	}
 	for round := 0; round < 1000; round++ {
 		ids := wd.waiting()
 		if len(ids) == 0 {
@@ -200,8 +261,11 @@ func (wd *world) finish(w *tr.W) {
 		wd.issue(wd.submit("get", k, nil, nil))
 		wd.settle(w)
 	}
+	wd.over = true
+	wd.flush(w)
 	w.Emit(tr.E{"ev": "end"})
 	wd.grp.Stop()
+	wd.grp.Stop() // stopping twice is stopping once
 	for i := range wd.x.W {
 		if wd.x.Busy(i + 1) {
 			return // somebody never returned: the trace already says so; leave the goroutines behind
@@ -215,7 +279,7 @@ func (wd *world) finish(w *tr.W) {
 	cancelQ()
 	if err != nil {
 		if err := wd.x.Settle(); err != nil {
-			tr.Fatal("%v", err)
+			wd.giveUp(w, err)
 		}
 		ctx, cancel := context.WithTimeout(context.Background(), 2*time.Second)
 		err = wd.grp.WaitStop(ctx)
@@ -237,6 +301,16 @@ func runSteps(w *tr.W, cfg config, plan []step) {
 	wd.emitReset(w)
 	skip := -1
 	for i, s := range plan {
+		if i == cfg.StartAt {
+			wd.start(w)
+			wd.settle(w)
+		}
+		if i == cfg.StopAt && !wd.stopped {
+			// Stop with calls accepted and unfinished (queued behind a gate, in a handler, or - group not
+			// running yet - never looked at): they are still applied; later calls are refused
+			wd.stop(w)
+			wd.settle(w)
+		}
 		if i == skip {
 			continue // already issued as the follow-up of a cancelled call
 		}
